@@ -337,6 +337,15 @@ impl<'a> Gen<'a> {
     }
 
     pub fn block(&mut self) -> Block {
+        if self.rng.chance(1, 40) {
+            // blocks without content: an empty quote, empty list items
+            return match self.rng.below(4) {
+                0 => Block::Raw(">".into()),
+                1 => Block::Raw("-".into()),
+                2 => Block::Raw(format!("- {}\n-\n- {}", self.word(), self.word())),
+                _ => Block::Raw("1.".into()),
+            };
+        }
         match self.rng.weighted(&[22, 24, 14, 14, 5, 6, 7, 3]) {
             0 => self.heading(),
             1 => self.para(),
